@@ -31,6 +31,10 @@ def _impl(*args):
         raise ValueError("host value error")
     if b == "raises-TypeError":
         raise TypeError("host type error")
+    if b == "raises-CELEvalError":
+        raise celpy.CELEvalError("host raises the CEL error instead of returning it")
+    if b == "raises-KeyError":
+        raise KeyError("host key error")
     raise AssertionError(b)
 
 
@@ -84,7 +88,7 @@ def _closure():
 
 KINDS = ["module-def", "main-def", "nested-def", "lambda", "callable-object", "partial", "bound-method"]
 STYLES = ["dict", "list"]
-BEHAVIOURS = ["value", "returns-error", "raises-ValueError", "raises-TypeError"]
+BEHAVIOURS = ["value", "returns-error", "raises-ValueError", "raises-TypeError", "raises-CELEvalError", "raises-KeyError"]
 
 # shape: (text, [call sites...]) ; a call site = (args as python ints or nested site index, reach)
 # variables a=1, b=2, c=3, t=true
@@ -276,7 +280,7 @@ def run(ctx):
         ctx.run_shards(shard, [rk])
     ctx.part.sample({"shapes": [s for s, _ in SHAPES], "styles": STYLES, "callable_kinds": KINDS, "behaviours": BEHAVIOURS})
     ctx.rule = ("every call shape (0-3 arguments, function and method form, nested, in +, in map, beside || / &&, in ?:, in the range of each macro, beside a variable or macro variable of the same name) x supplying style (dict, list) x callable kind (module-level def, def in __main__, closure, lambda, "
-                "callable object, functools.partial, bound method) x behaviour (value, returned CELEvalError, raised ValueError, raised TypeError) x runner; plus built-in override scope in every program order and unbound names; "
+                "callable object, functools.partial, bound method) x behaviour (value, returned CELEvalError, raised ValueError / TypeError / CELEvalError / KeyError) x runner; plus built-in override scope in every program order and unbound names; "
                 "a case is one program evaluation whose outcome AND call log are compared; `int || false` is counted, not compared")
     ctx.assumptions = ["arguments are small ints; evaluation order between sibling call sites is not asserted (counts only)"]
 
